@@ -61,9 +61,11 @@ Definition ql_code (c : qlin) (alpha x : rat) : Z :=
   rround (rclip (rofZ (ql_lo c)) (rofZ (ql_hi c)) p).
 (* 1-bit signed: doubled code in {-1,+1} meaning -1/2,+1/2 quantization scales *)
 Definition ql_code2_sign (c : qlin) (alpha x : rat) : Z :=
-  let p := rdiv x (rscale alpha (ql_se c)) in
+  (* float32-faithful: the quotient can flush to zero and cl - 0.5 rounds, so that
+     tiny negative inputs come out positive (below 2^-25 quantization scales) *)
+  let p := fdiv x (rscale alpha (ql_se c)) in
   let cl := rclip (-1, 2) (1, 2) p in
-  2 * rround (rsub cl (1, 2)) + 1.
+  2 * rround (fsub cl (1, 2)) + 1.
 Definition ql_val (c : qlin) (alpha x : rat) : rat :=
   let qs := rscale alpha (ql_se c) in
   if ql_sign c then rmul (ql_code2_sign c alpha x, 2) qs
@@ -179,7 +181,8 @@ Definition chk_qbits (c : qbits) (alpha : rat) (xb yb : Z) : Z :=
   match f32_dec xb with
   | None => 3
   | Some x =>
-    let hyp := within_steps x (qb_se c) in
+    (* below 2^24 steps of the OUTPUT grid alpha * 2^se *)
+    let hyp := rlt (rabs x) (rmul (rmin (1, 1) alpha) (rpow2 (24 + qb_se c))) in
     let v := qb_val c alpha x in
     if is_pow2_rat alpha then cmp_exact hyp (f32_dec yb) v
     else cmp_close hyp x (f32_dec yb) v
@@ -189,7 +192,8 @@ Definition chk_qlin (c : qlin) (alpha : rat) (xb yb : Z) : Z :=
   match f32_dec xb with
   | None => 3
   | Some x =>
-    let hyp := rlt (rabs x) (rmul alpha (rpow2 (24 + ql_se c))) in
+    (* output grid: alpha*2^se, halved for the 1-bit sign format (+-qs/2) *)
+    let hyp := rlt (rabs x) (rmul alpha (rpow2 ((if ql_sign c then 23 else 24) + ql_se c))) in
     let v := ql_val c alpha x in
     if is_pow2_rat alpha then cmp_exact hyp (f32_dec yb) v
     else cmp_close hyp x (f32_dec yb) v
@@ -222,6 +226,35 @@ Definition on_grid_in_range (y : rat) (se lo hi : Z) : bool :=
 (* nearest within half a step of a surrogate value p (given), tolerance 2^-tol steps *)
 Definition near_half_step (y p : rat) (se tol : Z) : bool :=
   rle (rabs (rsub y p)) (radd (rpow2 (se - 1)) (rpow2 (se - tol))).
+
+(* quantized_relu(use_sigmoid=1), hard/smooth surrogate, no slope *)
+Definition chk_qrelu_sig (c : qrelu) (m : sigmode) (xb yb : Z) : Z :=
+  match f32_dec xb with
+  | None => 3
+  | Some x =>
+    let p := fsigmoid m (rscale x (- qr_int c)) in
+    cmp_exact (within_steps x (qr_se c)) (f32_dec yb) (rscale (rofZ (qrs_code c p)) (qr_se c))
+  end.
+
+(* predicate-level checks (oracle surrogates): on the grid and in range ... *)
+Definition chk_grid (se lo hi : Z) (yb : Z) : Z :=
+  match f32_dec yb with
+  | None => 1
+  | Some y => if on_grid_in_range y se lo hi then 0 else 1
+  end.
+(* ... and within half a step (+2^-tol steps) of the clipped surrogate value p
+   (p given as a float64 bit pattern computed by the harness) *)
+Definition chk_grid_near (se lo hi tol : Z) (yb pb64 : Z) : Z :=
+  match f32_dec yb, f64_dec pb64 with
+  | Some y, Some p =>
+    let p' := rclip (rscale (rofZ lo) se) (rscale (rofZ hi) se) p in
+    if on_grid_in_range y se lo hi && near_half_step y p' se tol then 0 else 1
+  | _, _ => 1
+  end.
+
+(* min()/max() reporters decoded from float64 bits vs the model *)
+Definition chk_rat_eq (vb64 : Z) (v : rat) : Z :=
+  match f64_dec vb64 with Some r => if req r v then 0 else 1 | None => 1 end.
 
 Fixpoint tally (rs : list Z) (i : Z) (ok skip nf : Z) (bad : list Z) : Z * Z * Z * list Z :=
   match rs with
